@@ -47,6 +47,7 @@ pub struct State {
 
 static mut HOST: Option<RHost> = None;
 
+
 pub struct RHost {
     pub lib: Lib,
     pub w: World,
@@ -920,6 +921,7 @@ impl RHost {
 /// the previous history left it (a history without violations ends with everything released), so
 /// callers start a new process after any violation.
 pub fn run_trace(ops: &[Op]) -> Value {
+    let t0 = std::time::Instant::now();
     let h = host();
     h.st = State::new();
     unsafe {
@@ -941,5 +943,5 @@ pub fn run_trace(ops: &[Op]) -> Value {
         }
     }
     h.finish(&mut c, live0);
-    json!({"viol": h.st.viol, "handles": h.st.table.len() - 1, "destroyed": c.destroyed.len(), "states": abs})
+    json!({"viol": h.st.viol, "handles": h.st.table.len() - 1, "destroyed": c.destroyed.len(), "states": abs, "us": t0.elapsed().as_micros() as u64})
 }
